@@ -8,6 +8,7 @@ stored in streaming_waiter only under write back-pressure, is signalled when it 
 teardown; control-order: the back-pressure flag is updated before the application control service
 is awaited; baton: a woken-but-cancelled sender must hand the wake-up on (the parked object needs a
 Drop that re-runs the wake loop). Eventual completion (fairness, waker delivery) is not decided."""
+import re
 from facts import *
 from disp import agg_sites
 
@@ -128,14 +129,22 @@ def wake_count(F, R, ver):
             c = op_place(rv['b'])
             if a and a[-1] == 'cap' and c and resolves(b, c['l'], len_locals):
                 subs.add(bi)
-    ok = bool(subs)
+    # the same difference through the integer methods (`cap.saturating_sub(len)`, checked_sub, wrapping_sub)
+    sub_calls = set()
+    for bi, t in b.calls():
+        if re.search(r'::(saturating_sub|checked_sub|wrapping_sub)$', callee_name(t) or '') and len(t['args']) == 2:
+            a = apath(b, t['args'][0])
+            c = op_place(t['args'][1])
+            if a and a[-1] == 'cap' and c and resolves(b, c['l'], len_locals):
+                sub_calls.add(bi)
+    ok = bool(subs) or bool(sub_calls)
     # if the waking is delegated to a helper, the bound handed over must be that difference
     for bi, t in b.calls():
         if callee_name(t) in wc and callee_name(t) != b.path:
             okh = False
             for a in t['args']:
                 og = Origin(b).of_operand(a)
-                if any(l[0] == 'binop' and l[1] in ('Sub', 'SubWithOverflow') and l[2] in subs for l in og):
+                if any(l[0] == 'binop' and l[1] in ('Sub', 'SubWithOverflow') and l[2] in subs for l in og) or any(l[0] == 'call' and l[2] in sub_calls for l in og):
                     okh = True
             ok = ok and okh
     R.ob('C13.wake-count', '%s|disable_wr_backpressure|wakes up to cap - outstanding' % ver, ok, 'the number of senders released when back-pressure lifts must be bounded by the free slots (cap - outstanding), not by cap')
@@ -152,7 +161,63 @@ def wake_count(F, R, ver):
             for a in t['args']:
                 if any(x == 2 for x, _ in leaves_args(Origin(b).of_operand(a))):
                     ok = True
+    # the same bound as a counter: `let mut n = cap; while n > 0 { pop ..; if sent { n -= 1 } }`
+    if not ok:
+        ok = counter_bounded(b, lambda op: any(a == 2 for a, _ in leaves_args(Origin(b).of_operand(op))))
     R.ob('C13.wake-count', '%s|set_cap|wakes up to cap' % ver, ok, 'set_cap must wake at most `cap` parked senders (one per slot)')
+
+
+def counter_bounded(b, init_pred):
+    """A wake loop bounded by a down-counter: some local is initialised from a value accepted by init_pred,
+    compared with 0 on a cycle that contains a pop of `waiters`, and decremented by 1 inside that cycle."""
+    pops = {x[0] for x in calls_on_field(b, r'VecDeque::<T, A>::(pop_front|pop_back)$', 'waiters')}
+    if not pops:
+        return False
+    for l in range(len(b.locals)):
+        ds = [d for d in b.whole_defs(l) if d[0] in b.live]
+        if len(ds) < 2:
+            continue
+        init = dec = False
+        dec_blocks = set()
+        for d in ds:
+            if d[2] != 'assign':
+                continue
+            rv = d[3]['rv']
+            if rv['k'] == 'use':
+                p = op_place(rv['op'])
+                if p is not None and place_proj(p):
+                    # n = move (tmp.0) where tmp = SubWithOverflow(n, 1)
+                    for d2 in b.whole_defs(p['l']):
+                        if d2[2] == 'assign' and d2[3]['rv']['k'] == 'bin' and d2[3]['rv']['op'] in ('Sub', 'SubWithOverflow') and const_val(d2[3]['rv']['b']) == 1 and (op_place(d2[3]['rv']['a']) or {}).get('l') == l:
+                            dec = True
+                            dec_blocks.add(d[0])
+                    continue
+                if init_pred(rv['op']):
+                    init = True
+            elif rv['k'] == 'bin' and rv['op'] in ('Sub', 'SubWithOverflow') and const_val(rv['b']) == 1 and (op_place(rv['a']) or {}).get('l') == l:
+                dec = True
+                dec_blocks.add(d[0])
+            elif rv['k'] in ('cast',) and init_pred(rv['op']):
+                init = True
+        if not (init and dec):
+            # initialised by a call result (saturating_sub etc.)
+            for d in ds:
+                if d[2] == 'call' and init_pred({'cp': {'l': l}}) and dec:
+                    init = True
+        if not (init and dec):
+            continue
+        # compared with 0 on a cycle with the pop and the decrement
+        for bi, j, s_ in b.assigns():
+            rv = s_['rv']
+            if rv['k'] != 'bin' or rv['op'] not in ('Gt', 'Ne', 'Lt', 'Ge', 'Le', 'Eq'):
+                continue
+            sides = [rv['a'], rv['b']]
+            if not any(op_place(x) is not None and resolves(b, op_place(x)['l'], {l}) for x in sides) or not any(const_val(x) in (0, 1) for x in sides):
+                continue
+            cyc = {x for x in b.reachable_after(bi) if bi in b.reachable_after(x)} | {bi}
+            if pops & cyc and dec_blocks & cyc:
+                return True
+    return False
 
 
 def ack_wakes_one(F, R, ver):
@@ -183,7 +248,7 @@ def ack_wakes_one(F, R, ver):
             again = pops & b.reachable(accepted, avoid=[refused])
             R.ob('C13.wake-count', '%s|%s|one-ack-wakes-at-most-one-sender' % (ver, b.path.split('::')[-1]), not again,
                  'after a parked sender accepted the wake-up another waiter can be popped for the same acknowledgement: one freed slot is promised to several senders, the window is exceeded', b.loc(bi))
-    R.floor('C13.wake-count', '%s checked wake-ups on the acknowledgement path' % ver, n, 2)
+    R.floor('C13.wake-count', '%s checked wake-ups on the acknowledgement path' % ver, n, 1)
 
 
 def resolves(b, l, targets):
